@@ -365,12 +365,19 @@ func (cp *CollectingProcess) decodeDataSet(dataBuffer *bytes.Buffer, obsDomainID
 
 	for dataBuffer.Len() > 0 {
 		elements := make([]entities.InfoElementWithValue, 0, len(template)+cp.numExtraElements)
+		remaining := dataBuffer.Len()
 		for _, ie := range template {
 			var length int
 			if ie.Len == entities.VariableLength { // string / octet array
-				length = getFieldLength(dataBuffer)
+				length, err = getFieldLength(dataBuffer)
+				if err != nil {
+					return nil, err
+				}
 			} else {
 				length = int(ie.Len)
+			}
+			if dataBuffer.Len() < length {
+				return nil, fmt.Errorf("data set is truncated: %d bytes left for a field of %d bytes", dataBuffer.Len(), length)
 			}
 			element, err := entities.DecodeAndCreateInfoElementWithValue(ie, dataBuffer.Next(length))
 			if err != nil {
@@ -382,6 +389,10 @@ func (cp *CollectingProcess) decodeDataSet(dataBuffer *bytes.Buffer, obsDomainID
 				continue
 			}
 			elements = append(elements, element)
+		}
+		if dataBuffer.Len() == remaining {
+			// A record of this template does not use any byte: the rest of the set cannot be decoded.
+			return nil, fmt.Errorf("template %d with obsDomainID %d describes empty records: cannot decode %d bytes", templateID, obsDomainID, remaining)
 		}
 		err = dataSet.AddRecordV2(elements, templateID)
 		if err != nil {
@@ -505,12 +516,17 @@ func getMessageLength(reader *bufio.Reader) (int, error) {
 
 // getFieldLength returns string field length for data record
 // (encoding reference: https://tools.ietf.org/html/rfc7011#appendix-A.5)
-func getFieldLength(dataBuffer *bytes.Buffer) int {
-	oneByte, _ := dataBuffer.ReadByte()
+func getFieldLength(dataBuffer *bytes.Buffer) (int, error) {
+	oneByte, err := dataBuffer.ReadByte()
+	if err != nil {
+		return 0, fmt.Errorf("data set is truncated: cannot read the length of a variable-length field: %v", err)
+	}
 	if oneByte < 255 { // string length is less than 255
-		return int(oneByte)
+		return int(oneByte), nil
 	}
 	var lengthTwoBytes uint16
-	util.Decode(dataBuffer, binary.BigEndian, &lengthTwoBytes)
-	return int(lengthTwoBytes)
+	if err := util.Decode(dataBuffer, binary.BigEndian, &lengthTwoBytes); err != nil {
+		return 0, fmt.Errorf("data set is truncated: cannot read the length of a variable-length field: %v", err)
+	}
+	return int(lengthTwoBytes), nil
 }
